@@ -122,6 +122,9 @@ type SecOpts struct {
 	Sender   func(id hotstuff.ID) core.Sender                // optional
 	WrapBase func(id hotstuff.ID, b crypto.Base) crypto.Base // optional wrapper around the scheme
 	Members  int                                             // number of configured replicas (default N); replicas N+1.. are not built
+	// Early: the components are wired up and asked to verify a certificate BEFORE the membership is installed (the code builds
+	// components first and adds replicas on connection); what they answer later must not depend on that.
+	Early bool
 }
 
 // NewSecCluster builds N replicas' security components which all know each other's keys.
@@ -152,6 +155,23 @@ func NewSecCluster(o SecOpts) ([]*Sec, error) {
 		}
 		secs[i] = s
 	}
+	if o.Early {
+		for _, s := range secs {
+			s.BC = blockchain.New(s.EL, Quiet{}, s.Sender)
+			base := s.Base
+			if o.WrapBase != nil {
+				base = o.WrapBase(s.ID, base)
+			}
+			s.Auth = cert.NewAuthority(s.Cfg, s.BC, base)
+			func() {
+				defer func() { _ = recover() }()
+				if sig, err := s.Base.Sign(hotstuff.View(1).ToBytes()); err == nil {
+					_ = s.Auth.VerifyTimeoutCert(hotstuff.NewTimeoutCert(sig, 1))
+					_ = s.Auth.VerifyQuorumCert(hotstuff.NewQuorumCert(sig, 1, hotstuff.GetGenesis().Hash()))
+				}
+			}()
+		}
+	}
 	for _, s := range secs {
 		for _, t := range secs {
 			s.Cfg.AddReplica(&hotstuff.ReplicaInfo{
@@ -162,6 +182,9 @@ func NewSecCluster(o SecOpts) ([]*Sec, error) {
 		}
 	}
 	for _, s := range secs {
+		if o.Early {
+			break
+		}
 		s.BC = blockchain.New(s.EL, Quiet{}, s.Sender)
 		base := s.Base
 		if o.WrapBase != nil {
